@@ -1,8 +1,9 @@
 Require Extraction.
 Require Import ExtrOcamlBasic.
 From Coq Require Import NArith ZArith List.
-From CppcmsV Require Import C14.Defs C14.Defs16.
+From CppcmsV Require Import C14.Defs C14.Defs16 C14.DefsW.
 Definition keep_types : (N * Z * nat) := (0%N, 0%Z, 0%nat).
 Extraction "c14m.ml" keep_types cppcms_next booster_decode validate_count validate encode width utf_to_utf
   byte_ok sb_valid lookup valid_named validate_or_filter enc_less enc_equiv norm_name text_load text_widget decode_valid
-  u16_decode u16_encode u16_width utf8_to_utf16 utf16_to_utf8.
+  u16_decode u16_encode u16_width utf8_to_utf16 utf16_to_utf8
+  w_fresh wstep wvalidate wget.
